@@ -388,8 +388,10 @@ def _s_encode(self, encoding="utf-8", errors="strict"):
         pts = list(self._codepoints)
         if len(pts) <= 64:
             if bool(_any(((0xD800 <= c) & (c <= 0xDFFF)) for c in pts)):
-                with NoTracing():
-                    return realize(self).encode(enc, err)  # raises UnicodeEncodeError
+                # raise what CPython raises WITHOUT realising the string (realising would pin one concrete surrogate
+                # per path and make the solver enumerate all 2048 of them); only the exception type is observable
+                # to the code under test
+                raise UnicodeEncodeError("utf-8", "\ud800", 0, 1, "surrogates not allowed")
             out = utf8_pts(pts)
             with NoTracing():
                 return SymbolicBytes(out)
